@@ -50,13 +50,73 @@ fn probe(args: &[String], out: &mut dyn Write) -> i32 {
     0
 }
 
+fn rejects(out: &mut dyn Write, n: usize, seed: u64) -> i32 {
+    use proptest::test_runner::{Config, RngSeed, TestRunner};
+    let mut runner = TestRunner::new(Config { rng_seed: RngSeed::Fixed(seed), failure_persistence: None, ..Config::default() });
+    let cfg = checks::c01::cfg();
+    let mut hist: std::collections::BTreeMap<String, (usize, Vec<String>)> = Default::default();
+    let mut acc = 0;
+    for _ in 0..n {
+        let case = { let mut g = pbt::G::new(runner.rng()); sem::gen_case(&mut g, &cfg, 1, &[1], false) };
+        let src = case.source();
+        match cc::compile_str(&src, &case.opts()) {
+            cc::Outcome::Ok(_) => acc += 1,
+            cc::Outcome::Err(e) => {
+                let line = e.loc().map(|l| l.1 as usize).unwrap_or(0);
+                let text = src.lines().nth(line.saturating_sub(1)).unwrap_or("").trim().to_string();
+                let ent = hist.entry(e.msg()).or_default();
+                ent.0 += 1;
+                if ent.1.len() < 12 { ent.1.push(text); }
+            }
+            cc::Outcome::Panic(p) => { let ent = hist.entry(format!("PANIC {}", p.sig)).or_default(); ent.0 += 1; if ent.1.len() < 3 { ent.1.push(src.clone()); } }
+        }
+    }
+    writeln!(out, "accepted {}/{}", acc, n).ok();
+    let mut v: Vec<_> = hist.into_iter().collect();
+    v.sort_by_key(|x| std::cmp::Reverse(x.1 .0));
+    for (k, (c, ex)) in v { writeln!(out, "--- {} x {}", c, k).ok(); for e in ex { writeln!(out, "      {}", e).ok(); } }
+    0
+}
+
 fn main() {
     let argv: Vec<String> = std::env::args().collect();
     cc::install_panic_hook();
     let mut out = cc::silence_stdio();
+    let seed: u64 = std::env::var("VERIF_SEED").ok().and_then(|s| s.trim().parse::<i64>().ok()).map(|v| v as u64).unwrap_or(20260925);
+    let mut tier = match std::env::var("VERIF_TIER").ok().as_deref() { Some("thorough") => report::Tier::Thorough, _ => report::Tier::Quick };
+    let mut scale = std::env::var("VERIF_SCALE").ok().and_then(|s| s.parse().ok()).unwrap_or(100u32);
+    let mut i = 2;
+    let mut pos = vec![];
+    while i < argv.len() {
+        match argv[i].as_str() {
+            "--tier" => { i += 1; if argv.get(i).map(|s| s.as_str()) == Some("thorough") { tier = report::Tier::Thorough } else { tier = report::Tier::Quick } }
+            "quick" => tier = report::Tier::Quick,
+            "thorough" => tier = report::Tier::Thorough,
+            "--scale" => { i += 1; scale = argv[i].parse().unwrap_or(100); }
+            other => pos.push(other.to_string()),
+        }
+        i += 1;
+    }
     let code = match argv.get(1).map(|s| s.as_str()) {
         Some("probe") => probe(&argv[2..], &mut out),
-        _ => { writeln!(out, "usage: vcheck probe <file.c> ...").ok(); 2 }
+        Some("rejects") => rejects(&mut out, pos.get(0).and_then(|s| s.parse().ok()).unwrap_or(500), seed),
+        Some("replay") => {
+            let path = pos.get(0).cloned().unwrap_or_default();
+            match report::read_json(std::path::Path::new(&path)) {
+                Some(v) => {
+                    let prop = v["property"].as_str().unwrap_or("").to_string();
+                    let mut ctx = report::RunCtx { property: prop, tier, seed, out, start: std::time::Instant::now(), shards: 1, scale_pct: scale };
+                    checks::replay(&mut ctx, &v)
+                }
+                None => { writeln!(out, "cannot read {}", path).ok(); 2 }
+            }
+        }
+        Some(id) if id.starts_with('C') => {
+            let shards = std::env::var("VERIF_SHARDS").ok().and_then(|s| s.parse().ok()).unwrap_or(16usize);
+            let mut ctx = report::RunCtx { property: id.to_string(), tier, seed, out, start: std::time::Instant::now(), shards, scale_pct: scale };
+            checks::run(&mut ctx)
+        }
+        _ => { writeln!(out, "usage: vcheck <ID> [quick|thorough] | replay <file> | probe <file.c> ...").ok(); 2 }
     };
     std::process::exit(code);
 }
